@@ -25,7 +25,8 @@ from drivers import privs as drv
 
 OUT = tlc.OUT
 INV = ["WorkerCredsExact", "BootErrorNotSilent", "PermittedDropSucceeds", "MasterKeepsIdentity", "HeartbeatWritable"]
-ASIS = {"InitSkipsSetgid", "UsernameUnbound", "ZeroUnset"}
+ASIS = set()   # InitSkipsSetgid, UsernameUnbound, ZeroUnset: fixed in /repo (f8cb1e6)
+FIXED_DEVS = {"InitSkipsSetgid", "UsernameUnbound", "ZeroUnset"}
 MUTANT_DEVS = {"UidBeforeGid": "PermittedDropSucceeds", "DropAfterLoad": "WorkerCredsExact",
                "NoTmpChown": "HeartbeatWritable"}
 
@@ -44,7 +45,7 @@ def design(ctx):
         label, dev = job
         return label, dev, tlc.run("Privs", model_cfg(label, dev), name="Privs_" + label, workers=2,
                                    extra=["-continue"], timeout=600)
-    jobs = [("design", set()), ("asis", ASIS)] + [("dev_" + d, {d}) for d in MUTANT_DEVS]
+    jobs = [("design", set()), ("asis", FIXED_DEVS)] + [("dev_" + d, {d}) for d in MUTANT_DEVS]
     with ThreadPoolExecutor(max_workers=5) as ex:
         res = list(ex.map(one, jobs))
     for label, dev, r in res:
@@ -55,8 +56,7 @@ def design(ctx):
             ctx.add_model(r, "complete product, intended design")
             ctx.coverage["exhaustive"] = True
         elif label == "asis":
-            ctx.add_model(r, "complete product, current tree (Dev = %s)" % sorted(ASIS))
-            ctx.coverage["model_of_current_tree_violates"] = got
+            ctx.coverage["model_with_repaired_deviations_violates"] = got
         else:
             d = label[4:]
             ok = MUTANT_DEVS[d] in got
